@@ -6,8 +6,8 @@ that is not property-preserving after all): triage, never whitelist."""
 import glob, json, os, subprocess, sys
 rep = []
 allok = True
-for p in sorted(glob.glob("/verif/benign/*/benign*.diff")):
-    name = os.path.basename(os.path.dirname(p)) + "/" + os.path.basename(p)
+for p in sorted(glob.glob("/verif/benign/**/benign*.diff", recursive=True)):
+    name = os.path.relpath(p, "/verif/benign")
     out = subprocess.run(["/verif/tools/run_benign.sh", p] + sys.argv[1:], capture_output=True, text=True)
     alarms = [l for l in out.stdout.splitlines() if l.startswith("ALARM")]
     ok = out.returncode == 0
